@@ -5,6 +5,8 @@ from __future__ import annotations
 import ast
 
 CONSTRUCTS = {
+    # trailing semicolons where a rule moves or deletes the statement before them
+    "trailing_semicolons": 'def f(xs):\n    for x in xs:\n        y = 3;\n    return y\n\n\ndef g(xs):\n    total = 0\n    for x in xs:\n        k = 2; total += x * k;\n    print(total); return total\n\n\nprint(f([1]), g([1, 2]))\n',
     # statements whose later lines are indented less than their first line, right after an import inside a block
     "import_then_dedented_literal": 'if flag:\n    import os\n    print("""\nabc""")\n',
     "import_then_dedented_brackets": 'def f():\n    import json\n\n\n\n    x = [\n  1,\n  2]\n    text = """\nleft\n"""\n    return x, text, json\n',
